@@ -1,6 +1,8 @@
 package checks
 
 import (
+	"crypto/elliptic"
+	"crypto/ecdsa"
 	"bytes"
 	"crypto/sha1"
 	"crypto/sha256"
@@ -269,7 +271,8 @@ func runAA(k aaCase) (out aaOutcome) {
 		c2, _ := p.Chip()
 		r := c2.Process(append(append([]byte{0x00, 0xA4, 0x04, 0x0C, 0x07}, chipsim.AIDLDS1...)))
 		_ = r
-		resp := c2.Process(append(append([]byte{0x00, 0x88, 0x00, 0x00, 0x08}, otherChallenge...), 0x00))
+		// extended-length form: signatures of keys above 2048 bits do not fit a short response
+		resp := c2.Process(append(append([]byte{0x00, 0x88, 0x00, 0x00, 0x00, 0x00, 0x08}, otherChallenge...), 0x00, 0x00))
 		if len(resp) < 10 {
 			core.Infra("C07: could not record a signature over another challenge: %x", resp)
 		}
@@ -545,8 +548,53 @@ func C07(c *core.Ctx) {
 		}
 	}
 	c.AddTraces(int64(len(cases)))
+	c07PlainLookalike(c)
 	c.Extra["keys"] = len(keys)
 	c.Extra["responses_without_verdict_value_preserving_reencoding"] = grey
 	c.Sample(map[string]any{"case": cases[0].String(), "outcome": fmt.Sprintf("%+v", outs[0])})
 	c.Sample(map[string]any{"case": cases[len(cases)-1].String(), "outcome": fmt.Sprintf("%+v", outs[len(cases)-1])})
+}
+
+// c07PlainLookalike: genuine plain r||s signatures whose first octets happen to read like a DER SEQUENCE header
+// (30 <len-2>): a 2^-16 event per signature that the chip cannot avoid. They are ground here (P-256, fast arithmetic)
+// and must be accepted like every other genuine response.
+func c07PlainLookalike(c *core.Ctx) {
+	p, err := perso.New(perso.Options{Seed: c.Seed, AA: &perso.AASpec{Type: "ecdsa", ParamID: 12, Hash: "sha256", SigFormat: "plain"}, IssuerTrusted: true, OpenChip: true, BAC: true,
+		Transport: chipsim.Transport{ExtendedLength: true}})
+	if err != nil {
+		core.Infra("C07: perso: %v", err)
+	}
+	dg15, err := document.NewDG15(p.AppFiles[0x010F])
+	if err != nil || dg15 == nil {
+		core.Infra("C07: NewDG15: %v", err)
+	}
+	priv := &ecdsa.PrivateKey{D: new(big.Int).SetBytes(p.AAKey.Priv)}
+	priv.Curve = elliptic.P256()
+	priv.X, priv.Y = priv.Curve.ScalarBaseMult(p.AAKey.Priv)
+	challenge := []byte{0x11, 0x22, 0x33, 0x44, 0x55, 0x66, 0x77, 0x88}
+	digest := sha256.Sum256(challenge)
+	want := core.Pick(c, 2, 6)
+	found := 0
+	rnd := rand.New(rand.NewSource(c.Seed))
+	for tries := 0; tries < 2000000 && found < want; tries++ {
+		r, s, err := ecdsa.Sign(rnd, priv, digest[:])
+		if err != nil {
+			core.Infra("C07: sign: %v", err)
+		}
+		sig := append(r.FillBytes(make([]byte, 32)), s.FillBytes(make([]byte, 32))...)
+		if sig[0] != 0x30 || sig[1] != 62 {
+			continue
+		}
+		found++
+		c.Case(fmt.Sprintf("plain-der-lookalike/%x", sig[:6]), true)
+		res, err := activeauth.ValidateActiveAuthSignature(dg15, sig, challenge)
+		if err != nil || res == nil || !res.Success {
+			c.Violation("C07:genuine-response-rejected:ecdsa-plain-der-lookalike", fmt.Sprintf("a genuine plain r||s signature that starts with 30 3E (reads like a DER header) was rejected: %v", err),
+				map[string]any{"dg15": core.Hex(p.AppFiles[0x010F]), "challenge": core.Hex(challenge), "response": core.Hex(sig)})
+		}
+	}
+	if found == 0 {
+		core.Infra("C07: no DER-lookalike signature found")
+	}
+	c.Extra["plain_der_lookalike_signatures"] = found
 }
